@@ -1002,6 +1002,9 @@ func (a *remoteShardGroup) MapType(m *influxql.Measurement, field string) []infl
 func (a *remoteShardGroup) CreateIterator(ctx context.Context, m *influxql.Measurement, opt query.IteratorOptions) ([]query.Iterator, error) {
 	input, err := a.executor.CreateIterator(a.nodeID, a.shards.shardIDs(), ctx, m, opt)
 	if err == nil {
+		if input == nil {
+			return nil, nil
+		}
 		return []query.Iterator{input}, nil
 	}
 	if !a.retry {
@@ -1019,6 +1022,9 @@ func (a *remoteShardGroup) CreateIterator(ctx context.Context, m *influxql.Measu
 				if err != nil {
 					a.dirty.Store(nodeID, struct{}{})
 					return err
+				}
+				if input == nil {
+					return nil
 				}
 				mu.Lock()
 				inputs = append(inputs, input)
